@@ -199,8 +199,10 @@ def run(run):
                         if link_ref is None:
                             r1 = h.call(op="scan-order", dir=root, graph="g", order=[], procs=1, timeout=120)
                             link_ref = collections.Counter((a, b) for a, b in r1["edges"]) if r1.get("outcome") == "ok" else None
-                        for rep in range(3):
-                            rr = r if rep == 0 else h.call(op="scan-order", dir=root, graph="g", order=[], procs=16, timeout=120)
+                        for rep in range(8):        # (a lost update between concurrent mergers shows on some runs only)
+                            # (odd repetitions: merges are released on 2 ms boundaries, so that mergers running side by side,
+                            #  if there are any, start their merges at the same instant)
+                            rr = r if rep == 0 else h.call(op="scan-order", dir=root, graph="g", order=[], procs=16, timeout=120, **({"merge_gate": 2} if rep % 2 == 1 else {}))
                             lk = collections.Counter((a, b) for a, b in rr["edges"]) if rr.get("outcome") == "ok" else None
                             stats["link_comparisons"] += 1
                             if link_ref is not None and lk is not None and lk != link_ref:
